@@ -10,8 +10,10 @@ def _txt(c):
     return render(normal.norm_cond(c)).replace(' ', '')
 
 
-def conditions(fn):
+def conditions(fn, nodes=False):
+    """nodes=True: the stacks hold the normalised condition ASTs instead of their text."""
     out = {}
+    _txt = (lambda c: normal.norm_cond(c)) if nodes else globals()['_txt']
 
     def exits(st):
         """does this statement (a then-branch) always leave the enclosing list?"""
